@@ -22,9 +22,7 @@ import sys
 from harness import common, scriptlib as sl
 
 PROP = 'C05'
-THEOREMS = ['C05_no_error', 'C05_final', 'C05_quiet_irrelevant', 'C05_flat_list_string',
-            'C05_contract_const', 'C05_contract_sum', 'C05_contract_fixed_len', 'C05_contract_edit_distance',
-            'C05_colour_irrelevant']
+THEOREMS = ['C05_history']
 MODELS = ['theories/ApiSpec.vo', 'theories/ApiModel.vo']
 HEADER = ('From Coq Require Import ZArith List Bool.\nRequire Import GT.PyBase GT.Data GT.ScriptSpec GT.ApiSpec.\n'
           'Import ListNotations.\nOpen Scope Z_scope.\n')
@@ -99,11 +97,21 @@ def _trace_of(ex):
             'where': [f'{os.path.basename(fr.filename)}:{fr.lineno}:{fr.name}' for fr in tbk[-3:]]}
 
 
+def _build(item):
+    if item.get('ext'):
+        # a replay of D36: multisets with repeated elements, built directly ({"__mset__": [...]}, scriptlib.build_ext)
+        import graphtage
+        sl.ALLOW_DUPLICATES[0] = True
+        opts = graphtage.BuildOptions(**sl.options_kwargs(*item['opts']))
+        return sl.build_ext(item['a'], opts), sl.build_ext(item['b'], opts), opts
+    return sl.build_pair(item)
+
+
 def _run_history(item, quiet, hist):
     """fresh trees, fresh edit, the history, then completion and the script.  Calls that address a sub-edit that was
     not listed are not performed; `eff` is the history that was."""
     _set_quiet(quiet)
-    a, b, _ = sl.build_pair(item)
+    a, b, _ = _build(item)
     e = a.edits(b)
     listings = {}
     outs = []
@@ -138,12 +146,12 @@ def _run_history(item, quiet, hist):
     return {'quiet': bool(quiet), 'outs': outs, 'eff': eff, 'final': final, 'raised': raised, 'root': type(e).__name__}
 
 
-def _guarded(f):
+def _guarded(f, limit=ITEM_TIMEOUT):
     def on_alarm(signum, frame):
         # a BaseException: logging (where a spinning repeat_until_tightened spends its time) swallows Exceptions
-        raise sl.ItemTimeout('the implementation did not finish within %d s' % ITEM_TIMEOUT)
+        raise sl.ItemTimeout('the implementation did not finish within %d s' % limit)
     signal.signal(signal.SIGALRM, on_alarm)
-    signal.setitimer(signal.ITIMER_REAL, ITEM_TIMEOUT, 1.0)
+    signal.setitimer(signal.ITIMER_REAL, limit, 1.0)
     try:
         return f()
     finally:
@@ -176,12 +184,12 @@ def impl_history(item):
     timeout = False
     bad = False
     try:
-        a, b, _ = sl.build_pair(item)
+        a, b, _ = _build(item)
         try:
-            ta, tb = sl.ser_tree(a), sl.ser_tree(b)
+            ta, tb = (None, None) if item.get('ext') else (sl.ser_tree(a), sl.ser_tree(b))
         except ValueError:
             ta = tb = None
-        canon = _guarded(lambda: _run_history(item, True, []))
+        canon = _guarded(lambda: _run_history(item, True, []), item.get('timeout', ITEM_TIMEOUT))
         canon['final'] = intern(canon['final'])
         bad = canon['raised'] is not None
         quiets = item.get('quiets', [True, False])
@@ -659,8 +667,20 @@ def check(tier, seed):
                     it, o = oks[i]
                     run.violation({'kind': 'holds_C05-false', **describe(wd, st, it, o, 'holds_C05', f'{tag}{i}')})
                 n_viol += 1
+        # open findings: printed when their stored replay still fails (decided by holds_pC05, as for every case)
         for k, f in open_ids.items():
-            run.known(f"{k}: {f.get('what', '')}")
+            rep = f.get('replay')
+            if not isinstance(rep, dict) or 'a' not in rep:
+                continue
+            it = {'a': rep['a'], 'b': rep['b'], 'opts': list(rep.get('opts', ['auto', 'on'])), 'ext': bool(rep.get('ext')),
+                  'hists': rep.get('hists', [[]]), 'quiets': [True], 'timeout': 6, 'kind': 'known-finding'}
+            r = common.run_impl('pC05', 'impl_history', [it], nproc=1, timeout_item=60)[0]
+            still = True
+            if 'ok' in r:
+                badk, errk = common.coq_eval_cases(wd, 'kf' + k, HEADER, [pcase_term(r['ok'])], ['bad_cases holds_pC05'])
+                still = bool(errk) or bool(badk[0])
+            if still:
+                run.known(f"{k}: {f.get('what', '')} [stored replay a={json.dumps(rep['a'])} b={json.dumps(rep['b'])}]")
         run.cov['traces_validated_against_impl'] = (stats['histories'] - sum(len(ok[i][1]['items']) for i in unmodelled)) \
             if st['models_ok'] else 0
         run.cov['corr_disagreements'] = len(bad_corr) + len(bad_corr_c)
